@@ -24,7 +24,8 @@ def sanitize(case, tricky=False):
     """clean data and maps so that every generated term is valid (validity itself is C05's subject): cell values become
     plain tokens, reference-valued IRI maps become templates"""
     # plain tokens, and tokens that look like N-Quads syntax inside a literal (in IRIs they are percent-encoded): blank node labels, IRIs, quoted triples, statement ends
-    toks = ['a1', 'b2', 'c3', 'd4', 'e5', 'x', 'y', 'zz']
+    # plain tokens; two of them are text that is not in Unicode normal form C (a loader must not normalise what it stores)
+    toks = ['a1', 'b2', 'c3', 'd4', 'e5', 'x', 'y', 'zz', 'cafe\u0301', '\u212b\u1100\u1161']
     if tricky:
         toks = ['a1', 'b2', 'c3', 'x', 'k_:v1', '_:b2', '<http://ex.org/a> .', '<< a >>', 'e . f', '"q"@en', 'x^^<y>', 'http://ex.org/a_:b']
     for s in case['sources']:
@@ -97,8 +98,12 @@ def run(ctx, res):
                                    % ([q for q in o['oxigraph'] if q not in exp][:2], [q for q in exp if q not in o['oxigraph']][:2]), 'replay': c})
         # RDFLib
         if 'rdflib_exc' in o:
+            import re as _re
+            nonascii_label = any(_re.search(r'(?:^| )_:[^ ]*[^\x00-\x7f]', l) for l in o['set'])
             if star and 'rdflib-no-rdf-star' in known:
                 res.violations.append({'key': 'rdflib-no-rdf-star', 'what': 'recorded finding reproduced', 'replay': None})
+            elif nonascii_label and 'Failed to eat _:' in str(o['rdflib_exc']) and 'rdflib-nonascii-bnode-label' in known:
+                res.violations.append({'key': 'rdflib-nonascii-bnode-label', 'what': 'recorded finding reproduced', 'replay': None})
             else:
                 res.violations.append({'key': None, 'sig': 'rdflib-raises', 'what': 'materialize raises: %s' % o['rdflib_exc'], 'replay': c})
             continue
